@@ -30,4 +30,44 @@ TEXT = {
         note="Trusted: the harness's own keccak-f[1600] implementation (checked against two published vectors).",
         technique="runtime monitoring: API round-trip oracle with an independent hash implementation",
     ),
+    "C06": dict(
+        level="Held on every reverted frame observed: the full projection of the journaled state (balances, nonces, code hashes, slot values and warmth, account flags and warmth, transient storage, logs, depth) is snapshotted at every call/create/eofcreate notification of the generated workloads and compared at the matching end notification whenever the frame did not succeed, modulo the stated exceptions.",
+        note="Trusted: the projection/diff code and the list of legitimate differences (callee / delegation target / created address warmed by the caller side, creator nonce, RIPEMD touch), each tied to an EIP in mon.rs. Direct API histories on JournaledState are a second workload (see evidence).",
+        technique="runtime monitoring: online assertions at inspector hooks on generated hostile workloads (plain run + inspected run, release + debug-assertions lanes)",
+    ),
+    "C07": dict(
+        level="Held on every frame observed: recursion probes (per call kind x earlier-sibling mixes x SpecIds) must return exactly 1024, and the journal depth at every end notification must equal the depth at the matching start notification over the probes (about 1025 nested frames each) and the generated workloads; evidence lists how many frames ended in each early-return kind.",
+        note="Trusted: the probe contract (documented in online.rs) and the inspector callbacks as observation points. OSAKA EXT* early returns need EOF containers and are covered by the C26 workload once built.",
+        technique="runtime monitoring: online assertions at inspector hooks on generated hostile workloads (plain run + inspected run, release + debug-assertions lanes)",
+    ),
+    "C08": dict(
+        level="Held on every executed transaction observed (apart from listed known findings): exact-integer conservation identity over the whole database after each transaction, with self-destruct burns taken from instruction-level ground truth and deleted balances from the returned state.",
+        note="Trusted: BigUint arithmetic, the independent state applier (evmrun::apply_evm_state) and the burn ground truth of mon.rs. 'Destroyed' is what the specification deletes (self-beneficiary zeroing plus balances of accounts deleted at the end of the transaction).",
+        technique="runtime monitoring: online assertions at inspector hooks on generated hostile workloads (plain run + inspected run, release + debug-assertions lanes); conservation checker over recorded pre/post states",
+    ),
+    "C09": dict(
+        level="Held on every executed transaction observed (apart from listed known findings): gas-used bounds against an independently written intrinsic/floor formula, refund cap, failure rules, and closed-form sender/beneficiary payments on the sub-workload that cannot name the fee parties.",
+        note="Trusted: the intrinsic/floor formulas in online.rs (Appendix A.2). The EIP-7702 authorization refund is granted whatever the outcome (EIP-7702, EELS set_delegation) and is therefore allowed as slack on reverted/halted set-code transactions; demanding otherwise would flag spec-conformant code.",
+        technique="runtime monitoring: online assertions at inspector hooks on generated hostile workloads (plain run + inspected run, release + debug-assertions lanes)",
+    ),
+    "C10": dict(
+        level="Held on every static frame observed: each attempted writer opcode inside a static frame must end in an error, static mode must propagate to children, and the projection of the journaled state (without warmth and touch marks) at the end of every outermost static call must equal the one at its start.",
+        note="Trusted: the writer-opcode table and the projection. Touch marks are not world state (a zero-value static call legitimately touches its callee, EIP-161), so they are excluded from the comparison.",
+        technique="runtime monitoring: online assertions at inspector hooks on generated hostile workloads (plain run + inspected run, release + debug-assertions lanes)",
+    ),
+    "C28": dict(
+        level="Held on every transaction observed: plain execution versus NoOpInspector, GasInspector, TracerEip3155 (with/without memory) and the harness's recording inspector, comparing ExecutionResult and the complete returned state.",
+        note="Trusted: equality of revm's own result types. CustomPrintTracer is not run.",
+        technique="runtime monitoring: differential execution of the same workload under observing inspectors",
+    ),
+    "C29": dict(
+        level="Held on every event stream observed: an online grammar checker over the inspector notifications (LIFO pairing with equal inputs, one step_end per step, logs reported once and equal to the journal, nothing open at the end), also with an inspector that answers nested calls/creates itself.",
+        note="Trusted: the grammar in mon.rs. Log and self-destruct notifications are delivered after step_end of their instruction and before the next event; the checker accepts exactly that placement.",
+        technique="runtime monitoring: online trace-grammar checker over inspector events",
+    ),
+    "C30": dict(
+        level="Held on every SELFDESTRUCT observed: instruction-level ground truth (executing contract, popped beneficiary, balance, completion) versus the notifications delivered.",
+        note="Trusted: the ground truth taken at step/step_end. For a Cancun self-beneficiary no-op either 0 or the balance is accepted as value.",
+        technique="runtime monitoring: online assertions at inspector hooks on generated hostile workloads (plain run + inspected run, release + debug-assertions lanes)",
+    ),
 }
